@@ -32,7 +32,7 @@ if [ "$ID" = "C20" ]; then
   (cd "$SCR/src" && go build -trimpath -o "$SCR/c20ref" ./verifh/cmd/c20ref) 2>"$SCR/build0.log" || { cat "$SCR/build0.log" >&2; fail "build of the uninstrumented reference binary failed"; }
   export VERIF_C20REF="$SCR/c20ref"
 fi
-"$MKINST" -vos news.go,threaded_news.go,account_manager.go,ban.go "$SCR/src/hotline" "$SCR/src/internal/mobius" 2>"$SCR/mkinst.log" || { cat "$SCR/mkinst.log" >&2; fail "instrumentation failed"; }
+"$MKINST" -vos news.go,threaded_news.go,account_manager.go,ban.go,files.go "$SCR/src/hotline" "$SCR/src/internal/mobius" 2>"$SCR/mkinst.log" || { cat "$SCR/mkinst.log" >&2; fail "instrumentation failed"; }
 RACE=""
 [ "${VERIF_RACE:-0}" = 1 ] && RACE="-race" && export CGO_ENABLED=1
 (cd "$SCR/src" && go build -trimpath $RACE -tags verif -o "$SCR/vcheck" ./verifh/cmd/vcheck) 2>"$SCR/build.log" || { cat "$SCR/build.log" >&2; fail "build of instrumented tree failed"; }
